@@ -74,14 +74,18 @@ def _progs_for(prop, tier, seed):
         # pushes: positive programs; lattice programs only where relations read lattice values through
         # upward-closed tests (a non-monotone read of a lattice value behaves like an aggregate)
         pos = gen.c01_curated() + [p for p in gen.c03_curated() if p.name not in ("constprop", "lat_nokey")]
-        if q:
-            pos = [p for p in pos if p.name not in ("arity3", "three_dyn", "lat_upward")]
+        heavy = [p for p in pos if p.name in ("arity3", "three_dyn", "lat_upward")]
+        pos = [p for p in pos if p not in heavy]
+        if not q:
+            # two input sets over these exceed the node budget at D=3: universe of 2 constants
+            add(heavy, "push", ["mismatch", "nonterm", "panic"], D=2)
         lat = [p for p in pos if any(r.lattice for r in p.rels)]
         add([p for p in pos if p not in lat], "push", ["mismatch", "nonterm", "panic"])
         # two symbolic input sets over a lattice program: universe of 2 constants (3 exceeds the node budget)
         add(lat, "push", ["mismatch", "nonterm", "panic"], D=2)
     elif prop == "C14":
-        base = gen.c01_curated() + gen.c04_curated() + gen.c14_lattice()
+        # (agg_lattice_value_bound is the vehicle of finding F8, a C04 matter: even an uninterrupted run is wrong)
+        base = gen.c01_curated() + [p for p in gen.c04_curated() if p.name != "agg_lattice_value_bound"] + gen.c14_lattice()
         sel = base if not q else [p for p in base if p.name in ("tc", "two_strata", "mutual3", "facts_multihead", "agg_chain", "agg_over_recursive", "consts_repeats", "generators", "neg_basic", "lat_scan_later", "lat_sp_small")]
         for p in sel:
             p.attrs.append("generate_run_timeout")
@@ -205,7 +209,7 @@ def check(prop, tier, only=None):
         keep = [i for i, j in enumerate(jobs) if only in j["prog"].name]
     else:
         keep = list(range(len(jobs)))
-    cp = Cp.Corpus("%s-%s" % (prop, tier), progs)
+    cp = Cp.Corpus("%s-%s%s" % (prop, tier, ("-" + C.RUN) if C.RUN else ""), progs)
     inconclusive, violations, known = [], [], []
     try:
         cp.build()
@@ -346,12 +350,52 @@ def split_modules(cp):
 
 
 def replay(prop, path):
-    """re-run a saved counterexample on the natively compiled real program"""
-    from symx import corpus as Cp
+    """re-run a saved counterexample on the natively compiled real program (current /repo working tree) and
+    compare with the reference model: exit 1 if the violation is still there, 0 if it no longer reproduces"""
+    from symx import corpus as Cp, scenario as Sc, checker as Ck
     rec = json.load(open(path))
     print(json.dumps({k: rec[k] for k in ("property", "program", "scenario", "counterexample")}, indent=1, default=str))
     print("program text:\n   " + rec["program_text"])
     print("script:\n  " + "\n  ".join(rec["replay"]["script"]))
-    print("native output at the time:\n" + str(rec["replay"].get("native_output")))
+    tier = "quick"
+    seed = C.seed()
+    prog = None
+    for t in ("quick", "thorough"):
+        jobs, progs = _progs_for(prop, t, seed)
+        for p in progs:
+            if p.name == rec["program"]:
+                prog, tier = p, t
+                break
+        if prog:
+            break
+    if prog is None:
+        print("program %s is not in the current corpus of %s; recorded native output was:\n%s" % (rec["program"], prop, rec["replay"].get("native_output")))
+        return 2
+    cp = Cp.Corpus("%s-replay" % prop, [prog])
+    cp.build()
+    out = cp.run_native([(prog.name, rec["replay"]["script"])], timeout=60)[0]
+    print("native output now:\n" + out)
     print("expected (least model):", rec["replay"].get("expected"))
+    sc = Sc.Scenario(**{k: v for k, v in (("kind", rec["scenario"]["kind"]),)})
+    # recompute the comparison with the recorded inputs
+    from symx.corpus import parse_dump
+    import ast as _ast
+
+    def parse_rows(d):
+        from symx.values import TS, NONE
+        env = {"Some": lambda v: TS("Some", v), "None": NONE, "Dual": lambda v: TS("Dual", v), "Reverse": lambda v: TS("Reverse", v),
+               "Constant": lambda v: TS("Constant", v), "Top": TS("Top"), "Bottom": TS("Bottom"), "true": True, "false": False}
+        return {k: [eval(t, {"__builtins__": {}}, env) for t in v] for k, v in (d or {}).items()}
+    dbA = parse_rows(rec["counterexample"].get("inputs"))
+    dbB = parse_rows(rec["counterexample"].get("pushed")) if rec["counterexample"].get("pushed") else None
+    if out.strip() == "PANIC":
+        print("REPRODUCED: native run panicked")
+        return 1
+    dumps, rets = parse_dump(out)
+    expected = sc.expected_concrete(prog, dbA, dbB)
+    problems = Ck.compare_native(prog, sc, dumps, rets, expected, dbA, dbB, "mismatch")
+    if problems:
+        print("REPRODUCED:", "; ".join(t for _, t in problems[:4]))
+        return 1
+    print("not reproduced on the current tree")
     return 0
